@@ -687,6 +687,86 @@ func ruleStackIdx(c *Ctx) {
 					if d, ok := defs[v.Name]; ok && d.idx < 0 {
 						return classify(d.e, depth+1)
 					}
+					// a parameter of this helper: at every call of the helper in the package the argument is a constant
+					// or a bytecode operand (possibly held in a local defined once from one)
+					if pobj, ok := info.Uses[v].(*types.Var); ok {
+						pidx := -1
+						i := 0
+						for _, fl := range fd.Type.Params.List {
+							for _, nm := range fl.Names {
+								if info.Defs[nm] == types.Object(pobj) {
+									pidx = i
+								}
+								i++
+							}
+						}
+						if pidx >= 0 {
+							var simple func(e ast.Expr, hd *ast.FuncDecl, d int) bool
+							simple = func(e ast.Expr, hd *ast.FuncDecl, d int) bool {
+								if d > 4 {
+									return false
+								}
+								switch x := e.(type) {
+								case *ast.ParenExpr:
+									return simple(x.X, hd, d+1)
+								case *ast.BasicLit:
+									k, err := strconv.Atoi(x.Value)
+									return err == nil && k >= 0
+								case *ast.CallExpr:
+									if len(x.Args) == 1 {
+										if tv, ok := info.Types[x.Fun]; ok && tv.IsType() {
+											return simple(x.Args[0], hd, d+1)
+										}
+									}
+								case *ast.IndexExpr:
+									return isIdent(x.X, "code")
+								case *ast.Ident:
+									// a local of the caller defined exactly once
+									obj := info.Uses[x]
+									var def ast.Expr
+									n := 0
+									ast.Inspect(hd.Body, func(m ast.Node) bool {
+										if as, ok := m.(*ast.AssignStmt); ok && len(as.Lhs) == len(as.Rhs) {
+											for i, l := range as.Lhs {
+												if id, ok := l.(*ast.Ident); ok && obj != nil && (info.Defs[id] == obj || (as.Tok != token.DEFINE && info.Uses[id] == obj)) {
+													def = as.Rhs[i]
+													n++
+												}
+											}
+										}
+										return true
+									})
+									if n == 1 {
+										return simple(def, hd, d+1)
+									}
+								}
+								return false
+							}
+							nSites, all := 0, true
+							for _, hd := range c.allFuncDecls("interp") {
+								if hd.Body == nil {
+									continue
+								}
+								ast.Inspect(hd.Body, func(m ast.Node) bool {
+									c2, ok := m.(*ast.CallExpr)
+									if !ok {
+										return true
+									}
+									if g := calleeOf(info, c2); g != nil && info.Defs[fd.Name] == types.Object(g) && pidx < len(c2.Args) {
+										nSites++
+										if !simple(c2.Args[pidx], hd, 0) {
+											all = false
+										}
+									}
+									return true
+								})
+							}
+							if nSites > 0 && all {
+								why = "parameter that is a constant or a bytecode operand at every call"
+								return true
+							}
+						}
+					}
 					// a name declared several times in different clauses: resolve by object
 					obj := info.Uses[v]
 					var def ast.Expr
